@@ -19,13 +19,16 @@ import json
 claimed = [c["property_id"].lower() for c in json.load(open(os.path.join(m.VERIF, "MANIFEST.json")))["checks"]]
 rc = 0
 for c in cmds:
+    mod, ov = m.prepare_build_files(work, c.upper())  # each check is built with its own accessors only
     r = subprocess.call(["go", "build", "-race", "-tags", "verif", "-modfile=" + mod, "-overlay=" + ov,
                          "-o", os.path.join(work, "bin") + "/", "./cmd/" + c],
                         cwd=os.path.join(m.VERIF, "harness"), env=m.env_go())
     if r != 0 and c in claimed:
         rc = r
 # the real relay binary (C14, C20) with the race detector
-subprocess.call(["go", "build", "-race", "-tags", "verif", "-modfile=" + mod, "-overlay=" + ov,
+for c in ("C14", "C20"):
+  mod, ov = m.prepare_build_files(work, c)
+  subprocess.call(["go", "build", "-race", "-tags", "verif", "-modfile=" + mod, "-overlay=" + ov,
                  "-o", os.path.join(work, "bin") + "/", "github.com/grafana/carbon-relay-ng/cmd/carbon-relay-ng"],
                 cwd=os.path.join(m.VERIF, "harness"), env=m.env_go())
 import shutil
